@@ -630,7 +630,7 @@ def bfs(res: core.Result, depth: int) -> Dict[str, Any]:
 
 def run(tier: str, only=None) -> core.Result:
     res = core.Result("C19", "model_checking")
-    depth = 5 if tier == "quick" else 7
+    depth = 5 if tier == "quick" else 8
     if only:
         try:
             depth = int(only)
